@@ -110,7 +110,7 @@ pub fn run(args: &Args) -> Out {
         let v: Value = serde_json::from_str(&std::fs::read_to_string(p).ok()?).ok()?;
         v["replay"]["case"].as_u64().map(|x| x as usize)
     });
-    let n = if leg == "histories" { args.n(160, 3200) } else { args.n(64, 1280) };
+    let n = if leg == "histories" { args.n(480, 4800) } else { args.n(192, 1920) };
     for idx in 0..n {
         if let Some(o) = only {
             if o != idx {
